@@ -46,10 +46,22 @@ than having to do it themselves.
 var localRand = NewRand()
 
 // Add adds a ResourceRecord to Wrs if its ramdomly computed weight is greater
-// then the existing record.
+// then the existing record. A record with weight 0 is counted but never takes
+// part in the selection: weight 0 means "do not serve this address".
 func (w *Wrs) Add(rec ResourceRecord, data []byte) error {
 	if rec.Qtype != dns.TypeA && rec.Qtype != dns.TypeAAAA {
 		return fmt.Errorf("Unsupported type %d", rec.Qtype)
+	}
+
+	if rec.Weight == 0 {
+		// Do not rely on the key to keep the record out: Pow(u, 1/0) is 0 for
+		// u < 1 but 1, the best possible key, for u == 1.
+		if rec.Qtype == dns.TypeA {
+			w.V4Count++
+		} else {
+			w.V6Count++
+		}
+		return nil
 	}
 
 	key := math.Pow(float64(localRand.Uint32())*float64(1.0/math.MaxUint32), 1.0/float64(rec.Weight))
@@ -116,16 +128,16 @@ func (w *Wrs) record(name string, class uint16, qtype uint16) (rrs []dns.RR, err
 		items[i], items[j] = items[j], items[i]
 	})
 
+	// Every sampled item is served, whatever its key: only records with a
+	// positive weight are sampled, and a key of 0 (a draw of 0) is a valid key.
 	for _, item := range items {
-		if item.Key > 0.0 {
-			hdr := dns.RR_Header{Name: name, Rrtype: qtype, Class: class, Ttl: item.TTL, Rdlength: uint16(len(item.Addr))}
-			var rr dns.RR
-			rr, _, err = dns.UnpackRRWithHeader(hdr, item.Addr, 0)
-			if err != nil {
-				return nil, fmt.Errorf("failed to convert from tinydns format %d, %d: %w", hdr.Rdlength, len(item.Addr), err)
-			}
-			rrs = append(rrs, rr)
+		hdr := dns.RR_Header{Name: name, Rrtype: qtype, Class: class, Ttl: item.TTL, Rdlength: uint16(len(item.Addr))}
+		var rr dns.RR
+		rr, _, err = dns.UnpackRRWithHeader(hdr, item.Addr, 0)
+		if err != nil {
+			return nil, fmt.Errorf("failed to convert from tinydns format %d, %d: %w", hdr.Rdlength, len(item.Addr), err)
 		}
+		rrs = append(rrs, rr)
 	}
 
 	return rrs, nil
